@@ -8,7 +8,7 @@
    (a) Flow.v to pyscn (reported dead ranges = lines of the model's dead statements) and
    (b) PySem.v to CPython (same traces under the same oracles) on generated programs each run. *)
 From Coq Require Import NArith List.
-From PV Require Import Py.PyAST Py.PySem Cfg.Flow Cfg.FlowSound.
+From PV Require Import Py.PyAST Py.PySem Cfg.Flow Cfg.FlowSound Cfg.Builder Cfg.BuilderBounded.
 
 Theorem C01_executed_is_marked_reachable :
   forall body fuel o out t, run fuel o body = (out, t) -> forall k, In k t -> In (k, true) (fn_marks body).
@@ -26,6 +26,13 @@ Theorem C01_sound_every_def :
   run fuel o body = (out, t) -> forall k, In k t -> ~ In k (dead_ids body).
 Proof. intros m qn k0 body _. exact (executed_not_dead body). Qed.
 
+(* the abstraction the theorems are about agrees with the graph-level model of cfg_builder.go (Cfg/Builder.v: blocks,
+   typed edges, loop/exception stacks, DFS, findings, complexity) on every body with at most 4 statement nodes, all
+   constructs, plain and wrapped in a loop with an else clause (bounded: exhaustive enumeration by vm_compute) *)
+Theorem C01_flow_agrees_with_builder_bounded : forallb check_one all_bodies = true.
+Proof. exact flow_agrees_with_builder_bounded. Qed.
+
 Print Assumptions C01_executed_is_marked_reachable.
+Print Assumptions C01_flow_agrees_with_builder_bounded.
 Print Assumptions C01_sound.
 Print Assumptions C01_sound_every_def.
